@@ -9,4 +9,4 @@ echo "--- demo with change:"; build_demo; timeout 120 $DEMO/demo >/dev/null 2>&1
 # (git stash is shared between worktrees: never use it here)
 git -C $WT diff > $DEMO/.cur.diff; git -C $WT apply -R $DEMO/.cur.diff; echo "--- demo without change:"; build_demo; timeout 120 $DEMO/demo >/dev/null 2>&1; echo "exit=$?"; git -C $WT apply $DEMO/.cur.diff; rm -f $DEMO/.cur.diff
 make -C $WT >/dev/null 2>&1
-for c in $CHECKS; do echo "--- bin/check $c quick against the change:"; (cd /verif && CELLO_REPO=$WT timeout 900 bin/check $c quick 2>&1 | grep -E "VIOLATION|KNOWN|ERROR|held|VIOLATED" | (head -3; tail -1)); done
+for c in $CHECKS; do echo "--- bin/check $c quick against the change:"; (cd /verif && CELLO_REPO=$WT timeout 900 bin/check $c quick 2>&1 | grep -E "VIOLATION|KNOWN|ERROR|held|VIOLATED" | grep -v KNOWN | awk 'NR<=3{print} {l=$0} END{if(NR>3)print l}'); done
